@@ -133,7 +133,7 @@ fn main() {
         }
         "gen-walk" => {
             let mut w = NdjsonWriter::new(&a(3));
-            gen::walk(&a(2), &mut w, &mut out);
+            gen::walk(&a(2), args.get(4).map(|s| s != "0").unwrap_or(true), &mut w, &mut out);
             w.finish();
         }
         "detect-record" => {
